@@ -901,6 +901,38 @@ func checkEscapes(r *core.Run, p *core.Program, g *Grammar, rule string) {
 			return true
 		})
 	}
+	// the safety of a string is decided on its characters, never on single bytes
+	nClass := 0
+	for _, rel := range []string{"cte", "rules"} {
+		cpkg := p.Pkg(rel)
+		cinfo := cpkg.TypesInfo
+		for _, f := range funcsOf(cpkg) {
+			inspectCalls(cinfo, f.Decl.Body, func(call *ast.CallExpr, c *types.Func) {
+				if c == nil || core.Rel(c.Pkg()) != "internal/chars" || len(call.Args) == 0 {
+					return
+				}
+				sig := c.Type().(*types.Signature)
+				if sig.Params().Len() == 0 {
+					return
+				}
+				if b, ok := sig.Params().At(0).Type().Underlying().(*types.Basic); !ok || b.Kind() != types.Int32 {
+					return
+				}
+				nClass++
+				conv, ok := stripParens(call.Args[0]).(*ast.CallExpr)
+				if !ok || len(conv.Args) != 1 {
+					return
+				}
+				if tv, ok := cinfo.Types[conv.Fun]; !ok || !tv.IsType() {
+					return
+				}
+				if ab, ok := cinfo.TypeOf(conv.Args[0]).Underlying().(*types.Basic); ok && ab.Kind() == types.Uint8 {
+					r.Fail(rule, f.Name()+"|"+c.Name()+" on single bytes", call.Pos(), "`"+exprStr(call)+"` classifies one BYTE of the text as a character: the bytes of a multi-byte UTF-8 character are never the character itself, so characters that must be escaped (U+0085, U+2028, …) are judged safe")
+				}
+			})
+		}
+	}
+	r.Floor(rule, "character classifications by internal/chars", nClass, 4)
 	// unicodeEscape writes \[%x]; parseHexCodepoint reads base 16
 	if ue := findFn(p, "cte", "unicodeEscape"); ue != nil {
 		okFmt := false
